@@ -4,6 +4,7 @@ package main
 // violated clause (the same Go spec function the verifier translated) on the outcome.
 
 import (
+	"regexp"
 	"encoding/json"
 	"fmt"
 	"go/types"
@@ -48,6 +49,48 @@ type replayGen struct {
 	imports map[string]bool
 	ex      *Exec
 	fail    string
+	streams bool // the test needs the stream harness
+	approx  []string // what the materialisation approximated
+}
+
+// streamExpr: &verifStream{...} built from the model's ghost stream state of the value called name
+func (g *replayGen) streamExpr(name string) string {
+	pos, _ := g.get(name + ".rd.pos")
+	n, _ := g.get(name + ".rd.len")
+	if n < pos {
+		n = pos // a stream the function never reads from: its read side is unconstrained in the model
+	}
+	if n-pos > replayMaxLen {
+		g.fail = fmt.Sprintf("model stream %s too large to materialise (pos=%d len=%d)", name, pos, n)
+		return "nil"
+	}
+	var bs []string
+	for i := uint64(0); i < n-pos && i < streamModelBytes; i++ {
+		b, _ := g.get(fmt.Sprintf("%s.rd[%d]", name, i))
+		bs = append(bs, strconv.Itoa(int(b)))
+	}
+	et, _ := g.get(name + ".rd.err.tid")
+	er, _ := g.get(name + ".rd.err.ref")
+	kind := 2 // some other transport error
+	if t, ok := g.get("$io.EOF.tid"); ok {
+		if r, _ := g.get("$io.EOF.ref"); t == et && r == er {
+			kind = 0
+		}
+	}
+	if t, ok := g.get("$io.ErrUnexpectedEOF.tid"); ok {
+		if r, _ := g.get("$io.ErrUnexpectedEOF.ref"); t == et && r == er {
+			kind = 1
+		}
+	}
+	wl, _ := g.get(name + ".wr.len")
+	lim, _ := g.get(name + ".wr.limit")
+	room := int64(-1) // unlimited
+	if lim < wl {
+		room = 0
+	} else if lim-wl < replayMaxLen {
+		room = int64(lim - wl)
+	}
+	return fmt.Sprintf("verifNewStream(%d, %d, []byte{%s}, %d, %d, %d)", pos, n-pos, strings.Join(bs, ","), kind, wl, room)
 }
 
 func (g *replayGen) get(name string) (uint64, bool) {
@@ -68,7 +111,7 @@ func (g *replayGen) qual(p *types.Package) string {
 
 func (g *replayGen) typeStr(t types.Type) string { return types.TypeString(t, g.qual) }
 
-const replayMaxLen = 1 << 22
+const replayMaxLen = 1 << 25
 
 // expr builds a Go expression of type t for the model value rooted at name.
 func (g *replayGen) expr(name string, t types.Type, depth int) string {
@@ -117,6 +160,9 @@ func (g *replayGen) expr(name string, t types.Type, depth int) string {
 		if arr == 0 {
 			return fmt.Sprintf("%s(nil)", g.typeStr(t))
 		}
+		if c > replayMaxLen && n <= replayMaxLen {
+			c = n // an unconstrained capacity: the smallest legal one
+		}
 		if n > replayMaxLen || c > replayMaxLen || c < n {
 			g.fail = fmt.Sprintf("model slice %s too large to materialise (len=%d cap=%d)", name, n, c)
 			return "nil"
@@ -146,6 +192,14 @@ func (g *replayGen) expr(name string, t types.Type, depth int) string {
 		if r == 0 {
 			return fmt.Sprintf("(%s)(nil)", g.typeStr(t))
 		}
+		if t.String() == "*bufio.Reader" {
+			g.streams = true
+			return "verifBufReader(" + g.streamExpr(name) + ")"
+		}
+		if t.String() == "*bufio.Writer" {
+			g.streams = true
+			return "verifBufWriter(" + g.streamExpr(name) + ")"
+		}
 		if depth <= 0 {
 			return fmt.Sprintf("new(%s)", g.typeStr(u.Elem()))
 		}
@@ -158,11 +212,275 @@ func (g *replayGen) expr(name string, t types.Type, depth int) string {
 		if tid == 0 {
 			return fmt.Sprintf("%s(nil)", g.typeStr(t))
 		}
+		if isStreamType(t) {
+			// a test double that plays the model's ghost streams: the unread input, then the terminal error; output accepted
+			// up to the model's limit
+			g.streams = true
+			return g.streamExpr(name)
+		}
+		if t.String() == "error" {
+			g.imports["errors"] = true
+			return "errors.New(\"verif: some error value of the model\")"
+		}
 		g.fail = "cannot materialise interface value " + name
 		return "nil"
+	case *types.Map:
+		r, _ := g.get(name + ".ref")
+		if r == 0 {
+			return fmt.Sprintf("%s(nil)", g.typeStr(t))
+		}
+		g.approx = append(g.approx, name+": a non-nil map is materialised empty")
+		return fmt.Sprintf("%s{}", g.typeStr(t))
+	case *types.Chan:
+		r, _ := g.get(name)
+		if r == 0 {
+			return fmt.Sprintf("%s(nil)", g.typeStr(t))
+		}
+		// the 1-slot channels of this library are locks: materialised free (holding their token)
+		g.approx = append(g.approx, name+": a channel is materialised as a free 1-slot lock")
+		return fmt.Sprintf("func() %s { ch := make(%s, 1); var z %s; ch <- z; return ch }()", g.typeStr(t), g.typeStr(t), g.typeStr(u.Elem()))
+	case *types.Signature:
+		r, _ := g.get(name)
+		if r == 0 {
+			return fmt.Sprintf("(%s)(nil)", g.typeStr(t))
+		}
+		g.imports["reflect"] = true
+		g.approx = append(g.approx, name+": a function value is materialised as a stub returning zero values")
+		return fmt.Sprintf("reflect.MakeFunc(reflect.TypeOf((%s)(nil)), func(a []reflect.Value) []reflect.Value { ft := reflect.TypeOf((%s)(nil)); out := make([]reflect.Value, ft.NumOut()); for i := range out { out[i] = reflect.Zero(ft.Out(i)) }; return out }).Interface().(%s)", g.typeStr(t), g.typeStr(t), g.typeStr(t))
+	case *types.Array:
+		if isScalar(u.Elem()) && u.Len() <= 64 {
+			return fmt.Sprintf("%s{}", g.typeStr(t))
+		}
 	}
 	g.fail = "cannot materialise value of type " + t.String()
 	return "nil"
+}
+
+// verifHarnessSrc: test doubles that play the ghost streams of a counterexample, and run-time meanings of the ghost
+// accessors the contracts use (only inside replays; the overlay adds this file to the package).
+const verifHarnessSrc = `//go:build verif
+
+package %s
+
+import (
+	"bufio"
+	"errors"
+	"io"
+	"net"
+	"time"
+)
+
+type verifStream struct {
+	base, consumed, kind int
+	in                   []byte
+	wbase, room          int
+	w                    []byte
+	br                   *bufio.Reader
+	bw                   *bufio.Writer
+	oldPos, oldWrLen     int
+}
+
+var verifErrTransport = errors.New("verif: transport error")
+var verifAll []*verifStream
+var verifByKey = map[interface{}]*verifStream{}
+var verifIOErr, verifOldIOErr error
+
+func verifNewStream(pos, total int, head []byte, kind int, wbase int, room int) *verifStream {
+	in := make([]byte, total)
+	copy(in, head)
+	s := &verifStream{base: pos, in: in, kind: kind, wbase: wbase, room: room}
+	verifAll = append(verifAll, s)
+	return s
+}
+
+func (s *verifStream) termErr() error {
+	switch s.kind {
+	case 0:
+		return io.EOF
+	case 1:
+		return io.ErrUnexpectedEOF
+	}
+	return verifErrTransport
+}
+
+func verifRecord(err error) {
+	if verifIOErr == nil {
+		verifIOErr = err
+	}
+}
+
+func (s *verifStream) Read(p []byte) (int, error) {
+	if len(p) == 0 {
+		return 0, nil
+	}
+	if s.consumed >= len(s.in) {
+		verifRecord(s.termErr())
+		return 0, s.termErr()
+	}
+	n := copy(p, s.in[s.consumed:])
+	s.consumed += n
+	return n, nil
+}
+
+func (s *verifStream) Write(p []byte) (int, error) {
+	if s.room < 0 || len(s.w)+len(p) <= s.room {
+		s.w = append(s.w, p...)
+		return len(p), nil
+	}
+	k := s.room - len(s.w)
+	if k < 0 {
+		k = 0
+	}
+	s.w = append(s.w, p[:k]...)
+	verifRecord(verifErrTransport)
+	return k, verifErrTransport
+}
+
+func (s *verifStream) Close() error                       { return nil }
+func (s *verifStream) LocalAddr() net.Addr                { return nil }
+func (s *verifStream) RemoteAddr() net.Addr               { return nil }
+func (s *verifStream) SetDeadline(t time.Time) error      { return nil }
+func (s *verifStream) SetReadDeadline(t time.Time) error  { return nil }
+func (s *verifStream) SetWriteDeadline(t time.Time) error { return nil }
+
+func verifBufReader(s *verifStream) *bufio.Reader {
+	r := bufio.NewReaderSize(s, 16)
+	s.br = r
+	verifByKey[r] = s
+	return r
+}
+
+func verifBufWriter(s *verifStream) *bufio.Writer {
+	w := bufio.NewWriterSize(s, 16)
+	s.bw = w
+	verifByKey[w] = s
+	return w
+}
+
+func verifLookup(x interface{}) *verifStream {
+	if s, ok := x.(*verifStream); ok {
+		return s
+	}
+	if s, ok := verifByKey[x]; ok {
+		return s
+	}
+	panic("ghost: not a replay stream")
+}
+
+func (s *verifStream) pos() int {
+	p := s.base + s.consumed
+	if s.br != nil {
+		p -= s.br.Buffered()
+	}
+	return p
+}
+
+func (s *verifStream) wrLen() int {
+	n := s.wbase + len(s.w)
+	if s.bw != nil {
+		n += s.bw.Buffered()
+	}
+	return n
+}
+
+func verifSnapshot() {
+	for _, s := range verifAll {
+		s.oldPos, s.oldWrLen = s.pos(), s.wrLen()
+	}
+	verifOldIOErr = verifIOErr
+}
+
+func verifGhost_rd_pos(r interface{}) int     { return verifLookup(r).pos() }
+func verifGhost_old_rd_pos(r interface{}) int { return verifLookup(r).oldPos }
+func verifGhost_rd_len(r interface{}) int     { s := verifLookup(r); return s.base + len(s.in) }
+func verifGhost_rd_err(r interface{}) error   { return verifLookup(r).termErr() }
+func verifGhost_rd_at(r interface{}, i int) byte {
+	s := verifLookup(r)
+	if k := i - s.base; k >= 0 && k < len(s.in) {
+		return s.in[k]
+	}
+	return 0
+}
+func verifGhost_wr_len(w interface{}) int     { return verifLookup(w).wrLen() }
+func verifGhost_old_wr_len(w interface{}) int { return verifLookup(w).oldWrLen }
+func verifGhost_wr_limit(w interface{}) int {
+	s := verifLookup(w)
+	if s.room < 0 {
+		return 1 << 62
+	}
+	return s.wbase + s.room
+}
+func verifGhost_wr_at(w interface{}, i int) byte {
+	s := verifLookup(w)
+	if s.bw != nil && s.bw.Buffered() > 0 {
+		panic("ghost: output still buffered")
+	}
+	if k := i - s.wbase; k >= 0 && k < len(s.w) {
+		return s.w[k]
+	}
+	return 0
+}
+func verifGhost_ioerr() error     { return verifIOErr }
+func verifGhost_old_ioerr() error { return verifOldIOErr }
+func verifGhost_root(err error) error {
+	for i := 0; i < 64 && err != nil; i++ {
+		c, ok := err.(interface{ Cause() error })
+		if !ok {
+			break
+		}
+		err = c.Cause()
+	}
+	return err
+}
+` + ""
+
+var ghostRuntime = map[string]bool{"rd_pos": true, "old_rd_pos": true, "rd_len": true, "rd_err": true, "rd_at": true, "wr_len": true, "old_wr_len": true,
+	"wr_limit": true, "wr_at": true, "ioerr": true, "old_ioerr": true, "root": true}
+
+var ghostDeclRe = regexp.MustCompile(`(?m)^func ghost_(\w+)\(([^)]*)\)\s*(\S+)\s*\{ panic\("ghost"\) \}`)
+
+// transformContracts gives the ghost accessors of a contract file their replay-time meaning (the stream harness).
+func transformContracts(src string) string {
+	return ghostDeclRe.ReplaceAllStringFunc(src, func(m string) string {
+		sm := ghostDeclRe.FindStringSubmatch(m)
+		if !ghostRuntime[sm[1]] {
+			return m
+		}
+		var names []string
+		for _, p := range strings.Split(sm[2], ",") {
+			if f := strings.Fields(strings.TrimSpace(p)); len(f) > 0 {
+				names = append(names, f[0])
+			}
+		}
+		return fmt.Sprintf("func ghost_%s(%s) %s { return verifGhost_%s(%s) }", sm[1], sm[2], sm[3], sm[1], strings.Join(names, ", "))
+	})
+}
+
+// usesOldSpec: does the spec function (transitively) call a two-state oldspec_* function? Such a clause cannot be
+// evaluated after the call at run time.
+func usesOldSpec(fn *ssa.Function, seen map[*ssa.Function]bool) bool {
+	if fn == nil || seen[fn] || fn.Blocks == nil {
+		return false
+	}
+	seen[fn] = true
+	for _, b := range fn.Blocks {
+		for _, ins := range b.Instrs {
+			var callee *ssa.Function
+			switch x := ins.(type) {
+			case *ssa.Call:
+				callee = x.Call.StaticCallee()
+			case *ssa.MakeClosure:
+				callee, _ = x.Fn.(*ssa.Function)
+			}
+			if callee == nil {
+				continue
+			}
+			if strings.HasPrefix(callee.Name(), "oldspec_") || usesOldSpec(callee, seen) {
+				return true
+			}
+		}
+	}
+	return false
 }
 
 type replayVerdict struct {
@@ -321,6 +639,9 @@ func genReplayTest(ex *Exec, sp *FnSpec, r *Result) (src string, pkgDir string, 
 	if len(resNames) > 0 {
 		assign = strings.Join(resNames, ", ") + " = "
 	}
+	if g.streams {
+		sb.WriteString("\tverifSnapshot()\n")
+	}
 	fmt.Fprintf(&sb, "\tvar panicked interface{}\n\tfunc() {\n\t\tdefer func() { panicked = recover() }()\n\t\t%s%s(%s)\n\t}()\n", assign, callee, strings.Join(argNames, ", "))
 	kind := r.Group.Kind
 	sb.WriteString("\tif panicked != nil {\n\t\tfmt.Printf(\"REPLAY-RESULT: panic: %v\\n\", panicked)\n\t\treturn\n\t}\n")
@@ -333,6 +654,10 @@ func genReplayTest(ex *Exec, sp *FnSpec, r *Result) (src string, pkgDir string, 
 			args, err := specParamExpr(c.SpecFn, fn, true)
 			if err != nil {
 				return "", "", err
+			}
+			if usesOldSpec(c.SpecFn, map[*ssa.Function]bool{}) {
+				sb.WriteString("\tfmt.Println(\"REPLAY-RESULT: clause-not-evaluable (two-state clause: oldspec_* has no run-time meaning)\")\n")
+				continue
 			}
 			fmt.Fprintf(&sb, "\tok, evaluated := false, false\n\tfunc() {\n\t\tdefer func() { recover() }()\n\t\tok = %s(%s)\n\t\tevaluated = true\n\t}()\n\tif !evaluated {\n\t\tfmt.Println(\"REPLAY-RESULT: clause-not-evaluable (ghost state or undefined spec)\")\n\t\treturn\n\t}\n\tfmt.Println(\"REPLAY-RESULT: clause\", ok)\n", c.SpecFn.Name(), strings.Join(args, ", "))
 		}
@@ -376,7 +701,20 @@ func runReplay(repo, pkgDir, src, prop string) (string, bool) {
 	testFile := filepath.Join(tmp, "verif_replay_test.go")
 	os.WriteFile(testFile, []byte(src), 0o644)
 	target := filepath.Join(repo, pkgDir, "zz_verif_replay_test.go")
-	ov, _ := json.Marshal(map[string]interface{}{"Replace": map[string]string{target: testFile}})
+	repl := map[string]string{target: testFile}
+	// the stream harness, and the contract file with its ghost accessors given their replay-time meaning
+	if m := regexp.MustCompile(`(?m)^package (\w+)`).FindStringSubmatch(src); m != nil {
+		hf := filepath.Join(tmp, "verif_harness.go")
+		os.WriteFile(hf, []byte(fmt.Sprintf(verifHarnessSrc, m[1])), 0o644)
+		repl[filepath.Join(repo, pkgDir, "zz_verif_harness.go")] = hf
+		cfile := filepath.Join(repo, pkgDir, "verif_contracts.go")
+		if b, err := os.ReadFile(cfile); err == nil {
+			cf := filepath.Join(tmp, "verif_contracts.go")
+			os.WriteFile(cf, []byte(transformContracts(string(b))), 0o644)
+			repl[cfile] = cf
+		}
+	}
+	ov, _ := json.Marshal(map[string]interface{}{"Replace": repl})
 	ovFile := filepath.Join(tmp, "overlay.json")
 	os.WriteFile(ovFile, ov, 0o644)
 	cmd := exec.Command("go", "test", "-tags", "verif", "-overlay", ovFile, "-vet=off", "-count=1", "-timeout", "60s", "-run", "^TestVerifReplay$", "-v", pkgDir)
